@@ -158,6 +158,22 @@ pub fn big_cases(thorough: bool) -> Vec<BigCase> {
             out.push(BigCase { family: "long-gap/a-bc", cfg: c, hay: mk(&[&['/', 'a'], &xs, &['b', 'c']]), needle: abc.clone() });
         }
     }
+    // needles with repeated characters around one occurrence in a long haystack: the needle is a
+    // non-subsequence only because of the repetition; beyond the matrix limit the greedy fallback
+    // decides. ASCII and non-ASCII filler, occurrence at the start, the end, and split around the filler.
+    for k in [0usize, 1, 10, 1000, 34000, 34131, 34132, 34133, 34134, 40000, 51199, 51200, 51300, 70000] {
+        for filler in ['x', '界'] {
+            let c = cfg(true, false);
+            let fill: Vec<char> = vec![filler; k];
+            let mk = |parts: &[&[char]]| -> Vec<char> { parts.iter().flat_map(|p| p.iter().copied()).collect() };
+            let hays = [mk(&[&['a'], &fill, &['b']]), mk(&[&fill, &['a', 'b']]), mk(&[&['a', 'b'], &fill]), mk(&[&['a'], &fill, &['a'], &fill, &['b']])];
+            for hay in hays {
+                for needle in [&['a', 'a', 'b'][..], &['a', 'b', 'b'], &['a', 'a'], &['a', 'b'], &['a', 'b', 'a'], &['b', 'a'], &['a', 'a', 'a', 'b'], &['b', 'b']] {
+                    out.push(BigCase { family: "repeated-needle-chars", cfg: c, hay: hay.clone(), needle: needle.to_vec() });
+                }
+            }
+        }
+    }
     for n in needle_lengths(thorough) {
         let c = cfg(false, false);
         let run: Vec<char> = vec!['a'; n];
